@@ -47,11 +47,15 @@ func NewReflector[S, A any](t hseq.Type[S]) Reflector[A] {
 	ft := t.Type
 	fv := reflect.TypeOf(new(A)).Elem()
 
+	cat := reflect.TypeOf(new(S)).Elem()
+	if !inline(cat, 0, t.StructField, t.RootOffs) {
+		panic(fmt.Errorf("invalid type: Reflector[%s, %s] field %s is not stored inside the struct (pointer container or embedded pointer)", cat.String(), fv.String(), t.Name))
+	}
+
 	if ft.String() == fv.String() && ft.AssignableTo(fv) {
 		return &lens[S, A]{t}
 	}
 
-	cat := reflect.TypeOf(new(S)).Elem()
 	panic(fmt.Errorf("invalid type: Reflector[%s, %s] not compatible with %s", cat.Name(), ft.Name(), fv.Name()))
 }
 
